@@ -822,6 +822,8 @@ PROPS = {
     "C20": {"runs": [cache_run_spec(proj_cache_events, ["C20"]), tx_run_spec(["C20"], compare=True, nq=200),
                      iter_run_spec(proj_iter_full, ["C20"], nq=2000)]},
     "C13": {"runs": [iter_run_spec(proj_iter_account, ["C13"]),
+                     # failed calls inside a transaction leave it finishable (its connection can go back to the pool)
+                     tx_run_spec(["C13"], compare=False, nq=100),
                      # Get / GetAll with scripted column sets (fewer columns, missing aliases ...): rows and connection released
                      {"kind": "scan", "n": {"quick": 3000, "thorough": 100000}, "oracle_props": ["C13"], "project": proj_scan_c18}]},
     "C14": {"runs": [iter_run_spec(proj_iter_full, ["C14"]),
